@@ -50,7 +50,13 @@ def strategy(tier):
             ks = [draw(S.fl(0.1, 5.0, 3)) for _ in range(n - 1)]
             kT = draw(S.fl(0.2, 3.0, 3))
             c = {"family": fam, "k": ks, "N": draw(st.integers(5, 50)), "T": S.sig(kT / max(ks), 4), "M": M // 4,
-                 "np_seed": seed, "entry": draw(st.sampled_from(["scalar", "grid"]))}
+                 "np_seed": seed, "entry": draw(st.sampled_from(["scalar", "grid"])),
+                 # closed population declared with two-sided limits (0, N): the law is the same, and states do reach N
+                 "declared_limits": draw(st.booleans())}
+            if c["declared_limits"]:
+                # small closed population observed late: the absorbing compartment does fill up to the declared upper limit
+                c["N"] = draw(st.integers(2, 8))
+                c["T"] = S.sig(draw(S.fl(1.5, 4.0, 3)) / min(ks), 4)
             if c["entry"] == "grid":
                 # the same law read through the gridded output: every requested time, the last one (= horizon) included
                 fr = sorted(set(draw(st.lists(st.sampled_from([0.2, 0.35, 0.5, 0.65, 0.8]), min_size=1, max_size=3))))
@@ -129,6 +135,10 @@ def oracle(case, rec):
         ks, N, T = case["k"], case["N"], case["T"]
         n = len(ks) + 1
         m = _chain_model(ks)
+        if case.get("declared_limits"):
+            for d_ in m["state_decl"]:
+                d_["lims"] = [0, N]
+            rec.label("chain:declared-limits(0,N)")
         su = {"x0": [N] + [0] * (n - 1), "theta": ks, "t0": 0.0}
         model, order = stoch.prepare(m, su)
         Q = np.zeros((n, n))
